@@ -80,11 +80,33 @@ type concurrent struct {
 	Events  [][][]string `json:"events"` // per worker, event tag lists
 }
 
+// cloud stream: a real CloudHandler over a scripted cache (every host is a cache hit) in front of the
+// real TagHandler, as statsd.Server wires them.  The series' Src is the host they came from.
+type instance struct {
+	Host  string   `json:"host"`
+	Nil   bool     `json:"nil,omitempty"` // negative cache entry: a hit without an instance
+	ID    string   `json:"id"`
+	Tags  []string `json:"tags"`
+	Spare int      `json:"spare"` // spare capacity of the cached Tags slice
+}
+
+type cloudEvent struct {
+	Host string   `json:"host"`
+	Tags []string `json:"tags"`
+}
+
+type cloud struct {
+	Instances []instance   `json:"instances"`
+	Maps      [][]series   `json:"maps"`
+	Events    []cloudEvent `json:"events"`
+}
+
 type input struct {
 	Static    []string    `json:"static"`
 	Filters   []rawFilter `json:"filters"`
 	Config    *config     `json:"config,omitempty"` // config stream: the handler is built from TOML text
 	Conc      *concurrent `json:"conc,omitempty"`   // concurrent stream: several goroutines dispatch through ONE handler
+	Cloud     *cloud      `json:"cloud,omitempty"`  // cloud stream: the real CloudHandler (cache hits) feeds the TagHandler
 	Series    []series    `json:"series"`
 	Events    [][]string  `json:"events"`
 	Forwarded bool        `json:"forwarded"`
@@ -179,6 +201,11 @@ func oracle(in input) string {
 			for _, m := range w {
 				all = append(all, m...)
 			}
+		}
+	}
+	if in.Cloud != nil {
+		for _, m := range in.Cloud.Maps {
+			all = append(all, in.Cloud.enrich(m)...)
 		}
 	}
 	for _, s := range all {
@@ -1069,6 +1096,228 @@ func genConcurrent(r *hlib.Rand) input {
 	return in
 }
 
+// ---------------------------------------------------------------------------------------
+// cloud stream
+
+type scriptedCache struct {
+	byHost map[gostatsd.Source]*gostatsd.Instance // nil value = negative entry
+	sink   chan gostatsd.Source
+	info   chan gostatsd.InstanceInfo
+}
+
+func (c *scriptedCache) Peek(ip gostatsd.Source) (*gostatsd.Instance, bool) {
+	inst, ok := c.byHost[ip]
+	return inst, ok
+}
+func (c *scriptedCache) IpSink() chan<- gostatsd.Source           { return c.sink }
+func (c *scriptedCache) InfoSource() <-chan gostatsd.InstanceInfo { return c.info }
+func (c *scriptedCache) EstimatedTags() int                       { return 0 }
+
+func (cl *cloud) find(host string) *instance {
+	for i := range cl.Instances {
+		if cl.Instances[i].Host == host {
+			return &cl.Instances[i]
+		}
+	}
+	return nil
+}
+
+// enrich is what the cloud stage means for each series on its own: the instance tags appended to
+// a fresh copy of its tags, the instance id as its source.
+func (cl *cloud) enrich(ss []series) []series {
+	out := make([]series, 0, len(ss))
+	for _, s := range ss {
+		e := s
+		e.Tags = cp(s.Tags)
+		e.Key = ""
+		if inst := cl.find(s.Src); s.Src != "" && inst != nil && !inst.Nil {
+			e.Tags = append(e.Tags, inst.Tags...)
+			e.Src = inst.ID
+		}
+		out = append(out, e)
+	}
+	return out
+}
+
+func runCloud(em *hlib.Emitter, in input) {
+	c := hlib.Case{Input: in, Class: "cloud"}
+	cl := in.Cloud
+	table := oracle(in)
+	next := &capture{}
+	var th *statsd.TagHandler
+	if msg := hlib.Recover(func() { th = newHandler(in, next) }); msg != "" {
+		c.Monitors = append(c.Monitors, "constructor panicked in the cloud stream: "+msg)
+		em.Emit(c)
+		return
+	}
+	cache := &scriptedCache{byHost: map[gostatsd.Source]*gostatsd.Instance{}, sink: make(chan gostatsd.Source), info: make(chan gostatsd.InstanceInfo)}
+	for _, i := range cl.Instances {
+		if i.Nil {
+			cache.byHost[gostatsd.Source(i.Host)] = nil
+			continue
+		}
+		tags := make(gostatsd.Tags, len(i.Tags), len(i.Tags)+i.Spare)
+		copy(tags, i.Tags)
+		cache.byHost[gostatsd.Source(i.Host)] = &gostatsd.Instance{ID: gostatsd.Source(i.ID), Tags: tags}
+	}
+	ch := statsd.NewCloudHandler(cache, th)
+	sub := func(ss []series) input { one := in; one.Series = ss; return one }
+	var triples []string
+	var evIn, evOut [][]string
+	msg := hlib.Recover(func() {
+		for _, ss := range cl.Maps {
+			mm := buildMap(sub(ss))
+			inDump := mmgen.Entries(buildMap(sub(cl.enrich(ss)))) // what the tag stage is meant to receive
+			next.calls, next.mm = 0, nil
+			ch.DispatchMetricMap(context.Background(), mm)
+			out := "[]"
+			if next.calls > 1 {
+				c.Monitors = append(c.Monitors, "next handler called twice for one map")
+			}
+			if next.mm != nil {
+				canonical(next.mm)
+				out = mmgen.Entries(next.mm)
+				dup := func(kind, n string, tags []string) {
+					if hasDup(tags) {
+						c.Monitors = append(c.Monitors, fmt.Sprintf("duplicate tag on outgoing %s %q: %q", kind, n, tags))
+					}
+				}
+				next.mm.Counters.Each(func(n, _ string, v gostatsd.Counter) { dup("counter", n, v.Tags) })
+				next.mm.Gauges.Each(func(n, _ string, v gostatsd.Gauge) { dup("gauge", n, v.Tags) })
+				next.mm.Timers.Each(func(n, _ string, v gostatsd.Timer) { dup("timer", n, v.Tags) })
+				next.mm.Sets.Each(func(n, _ string, v gostatsd.Set) { dup("set", n, v.Tags) })
+			}
+			triples = append(triples, "("+inDump+", "+hlib.Bool(next.calls > 0)+", "+out+")")
+		}
+		for _, e := range cl.Events {
+			next.events = nil
+			ch.DispatchEvent(context.Background(), &gostatsd.Event{Title: "t", Tags: cp(e.Tags), Source: gostatsd.Source(e.Host)})
+			if len(next.events) != 1 {
+				c.Monitors = append(c.Monitors, fmt.Sprintf("event from %q: %d events reached the next handler", e.Host, len(next.events)))
+				continue
+			}
+			want := cp(e.Tags)
+			if inst := cl.find(e.Host); e.Host != "" && inst != nil && !inst.Nil {
+				want = append(want, inst.Tags...)
+			}
+			evIn = append(evIn, want)
+			evOut = append(evOut, cp(next.events[0].Tags))
+		}
+	})
+	if msg != "" {
+		c.Monitors = append(c.Monitors, "cloud / tag stage panicked: "+msg)
+	}
+	// the cache belongs to the provider: nothing downstream may write into a cached instance's tags
+	for _, i := range cl.Instances {
+		if i.Nil {
+			continue
+		}
+		got := append([]string{}, cache.byHost[gostatsd.Source(i.Host)].Tags...)
+		want := cp(i.Tags)
+		sort.Strings(got)
+		sort.Strings(want)
+		if strings.Join(got, "\x00") != strings.Join(want, "\x00") {
+			c.Monitors = append(c.Monitors, fmt.Sprintf("the cached instance of host %q had tags %q, now %q", i.Host, want, got))
+		}
+	}
+	raws := make([]string, len(in.Filters))
+	for i, f := range in.Filters {
+		raws[i] = coqRaw(f)
+	}
+	first := "[], false, []"
+	if len(triples) > 0 {
+		first = strings.TrimSuffix(strings.TrimPrefix(triples[0], "("), ")")
+		triples = triples[1:]
+	}
+	c.Coq = concCoq(table, in, raws, evIn, evOut, first, triples)
+	c.Nontrivial = len(in.Filters) >= 1 && len(cl.Maps) >= 1
+	c.Obs = map[string]interface{}{"maps": len(cl.Maps), "instances": len(cl.Instances), "events": len(cl.Events)}
+	em.Emit(c)
+}
+
+func genCloud(r *hlib.Rand) input {
+	in := genInput(r, "main")
+	in.Stream = "cloud"
+	in.Series, in.Events = []series{}, [][]string{}
+	instTags := []string{"region:us", "az:a", "env:prod", "team:x", "role:web"}
+	themed := []rawFilter{
+		{MM: []string{"global.*"}, EM: []string{}, MT: []string{}, DT: []string{"region:*"}},
+		{MM: []string{"noisy.*"}, EM: []string{"noisy.butok.*"}, MT: []string{}, DT: []string{"env:prod", "az:*"}, DropHost: true},
+		{MM: []string{}, EM: []string{"global.*", "abc"}, MT: []string{}, DT: []string{"team:*"}},
+		{MM: []string{"abc"}, EM: []string{}, MT: []string{}, DT: []string{}, DropMetric: true},
+		{MM: []string{"app.*"}, EM: []string{}, MT: []string{"role:web"}, DT: []string{"role:web", "region:us"}},
+		{MM: []string{"!noisy.*"}, EM: []string{}, MT: []string{}, DT: []string{"az:a"}},
+	}
+	fs := []rawFilter{}
+	for i, n := 0, r.Range(1, 3); i < n; i++ {
+		fs = append(fs, hlib.Pick(r, themed))
+	}
+	if len(in.Filters) > 0 && r.Chance(1, 3) {
+		fs = append(fs, in.Filters[0])
+	}
+	in.Filters = fs
+	if r.Chance(1, 2) { // static tags that overlap the instance tags
+		in.Static = append(in.Static, hlib.Pick(r, instTags))
+	}
+	cl := &cloud{}
+	hosts := []string{"10.0.0.1", "10.0.0.2", "h3"}[:r.Range(1, 3)]
+	for i, h := range hosts {
+		inst := instance{Host: h, ID: fmt.Sprintf("i-%d", i), Spare: hlib.Pick(r, []int{0, 0, 1, 4}), Tags: []string{}}
+		if i == 2 && r.Chance(1, 2) {
+			inst.Nil = true
+		}
+		for j, n := 0, r.Range(2, 4); j < n; j++ {
+			inst.Tags = append(inst.Tags, hlib.Pick(r, instTags)) // may repeat: the tag stage de-duplicates
+		}
+		cl.Instances = append(cl.Instances, inst)
+	}
+	ownTags := []string{"a", "x:1", "region:us", "host:a", "team:y"}
+	for m, nm := 0, r.Range(1, 3); m < nm; m++ {
+		var ss []series
+		used := map[string]bool{}
+		ts := int64(100)
+		for k, ns := 0, r.Range(3, 9); k < ns; k++ {
+			s := series{Type: r.Range(1, 4), Name: hlib.Pick(r, concNames), Src: hlib.Pick(r, append([]string{""}, hosts...)), Tags: []string{}}
+			if r.Chance(1, 2) {
+				for t, nt := 0, r.Range(1, 2); t < nt; t++ {
+					s.Tags = append(s.Tags, hlib.Pick(r, ownTags))
+				}
+			}
+			e := cl.enrich([]series{s})[0]
+			key := fmt.Sprintf("%d\x00%s\x00%s", e.Type, e.Name, gostatsd.FormatTagsKey(gostatsd.Source(e.Src), cp(e.Tags)))
+			key0 := fmt.Sprintf("in\x00%d\x00%s\x00%s", s.Type, s.Name, gostatsd.FormatTagsKey(gostatsd.Source(s.Src), cp(s.Tags)))
+			if used[key] || used[key0] { // one series per key before and after the cloud stage: no merge inside it
+				continue
+			}
+			used[key], used[key0] = true, true
+			ts++
+			s.TS = ts
+			switch gostatsd.MetricType(s.Type) {
+			case gostatsd.COUNTER:
+				s.CVal = int64(r.Range(1, 100))
+			case gostatsd.GAUGE:
+				s.GBits = math.Float64bits(float64(r.Range(1, 100)))
+			case gostatsd.TIMER:
+				s.TVals = []uint64{math.Float64bits(float64(r.Range(1, 9)))}
+				s.TSamp = math.Float64bits(1)
+			case gostatsd.SET:
+				s.Members = []string{hlib.Pick(r, members)}
+			}
+			ss = append(ss, s)
+		}
+		cl.Maps = append(cl.Maps, ss)
+	}
+	for i, n := 0, r.Range(0, 2); i < n; i++ {
+		ev := cloudEvent{Host: hlib.Pick(r, append([]string{""}, hosts...)), Tags: []string{}}
+		if r.Chance(1, 2) {
+			ev.Tags = append(ev.Tags, hlib.Pick(r, ownTags))
+		}
+		cl.Events = append(cl.Events, ev)
+	}
+	in.Cloud = cl
+	return in
+}
+
 func main() {
 	logrus.SetOutput(io.Discard) // NewTagHandlerFromViper logs every filter it loads
 	a := hlib.ParseArgs()
@@ -1086,6 +1335,10 @@ func main() {
 				stream = "config"
 			}
 			rr := r.Fork()
+			if n%10 == 5 {
+				runCloud(em, genCloud(rr))
+				continue
+			}
 			if n%10 == 0 {
 				in := genConcurrent(rr)
 				runConcurrent(em, in, in.Conc.Rounds)
@@ -1107,6 +1360,10 @@ func main() {
 			}
 			if in.Conc != nil {
 				runConcurrent(em, in, 10*in.Conc.Rounds) // a replay cannot force the interleaving: try longer
+				continue
+			}
+			if in.Cloud != nil {
+				runCloud(em, in)
 				continue
 			}
 			runOne(em, in)
